@@ -34,6 +34,7 @@ def prior_cases(draw):
     if fault in ("omit", "nounit", "badunit"):
         pool = names_nl + names_lin + (names_off if fault != "omit" else [])
         case["target"] = draw(st.sampled_from(pool))
+        case["unit_choice"] = draw(st.integers(0, 4))
     elif fault == "nonnormal":
         case["target"] = draw(st.sampled_from(names_lin + names_off))
         case["law"] = draw(st.sampled_from(NONNORMAL))
@@ -65,7 +66,19 @@ def build_prior(case):
 
     def unit_for(name, unit):
         if name == tgt and fault == "badunit":
-            return u.kg if name != "e" else u.m
+            # a unit that cannot be converted to the canonical one (incl. the angle <-> dimensionless confusions)
+            if name == "P":
+                menu = [u.kg, vel, 1 / u.day, u.rad]
+            elif name == "e":
+                menu = [u.m, u.rad, u.deg, vel]
+            elif name in ("omega", "M0"):
+                menu = [u.one, u.day, vel]
+            elif name[0] == "v" and name != "v0":
+                i = int(name[1:])
+                menu = [vel, vel / u.day ** (i + 1), u.day, u.one]
+            else:
+                menu = [u.day, u.kg, vel / u.day, u.one, u.rad]
+            return menu[case.get("unit_choice", 0) % len(menu)]
         if name == tgt and fault == "wrong_time_power":
             return vel  # v_i declared as a plain velocity
         return unit
@@ -176,6 +189,8 @@ def prior_body_factory(ctx):
         except Exception as e:  # any exception type counts as "raises"
             exc = e
         cell = "%s:%s" % (fault, case.get("target", case.get("law", "")))
+        if fault == "badunit":
+            cell += ":choice%d" % (case.get("unit_choice", 0) % 5)
         if fault == "nonnormal":
             cell = "nonnormal:%s:%s" % (case["law"], "offset" if case["target"].startswith("dv0") else case["target"][:1])
         if fault == "none":
